@@ -869,6 +869,8 @@ def model_corrected(ctx, case, mdata, sim_outputs):
     if not o1.startswith('ok '):
         return o1
     mus = parse_ndf(o1[3:]) > 0.5
+    if any(not np.all(np.isfinite(np.asarray(so, dtype=float))) for so in sim_outputs.values()):
+        return 'err the implementation handed over a simulated table with non-finite entries'
     sims = '-' if not sim_outputs else ';'.join('%s=%s' % ('.'.join(str(int(a)) for a in af), fmt_list(np.asarray(so, dtype=float).ravel().tolist())) for af, so in sim_outputs.items())
     o2 = drv.ask('lp_corrected %s %s %s %s' % (rat(case['thr']), popstr, fmt_nd(mdata), sims))
     if not o2.startswith('ok '):
@@ -1548,6 +1550,12 @@ def check_history(chk, ctx, sc):
             k, regime_of(c), '/'.join(p.get('cov_kind', '?') for p in c['pops']), [p['nseq'] for p in c['pops']], [p['nsub'] for p in c['pops']],
             [p['F'] for p in c['pops']], c['thr'], c['nsim'])
         mo = None
+        for af_, so_ in sims.items():
+            so_ = np.asarray(so_, dtype=float)
+            if not np.all(np.isfinite(so_)) or so_.min() < 0 or abs(so_.sum() - 1) > 1e-9:
+                chk.fail('simulate_GATK_multisample_calling:closure', 'function %d alone: simulated output for allele counts %r has min %r, total %r (not a probability table)'
+                         % (k, tuple(int(a) for a in af_), float(np.nanmin(so_)) if so_.size else None, float(np.nansum(so_))), inp)
+                break
         if have_driver(ctx) and not any(0 < p['F'] < TINY_F for p in c['pops']):
             res = model_corrected(ctx, c, mdata, sims)
             if not isinstance(res, str):
